@@ -13,8 +13,10 @@
    world (file contents on disk, external store, reported problems) in which every side-effecting call is a STEP at whose
    boundary one fault can be injected: an interruption (the process dies before the step) or a failure of the step
    (black raises / format-command exits non-zero; read, rename, open, write, copymode, replace raise OSError).  A failure
-   inside SourceFile.rewrite removes the temporary file again (except clause); an interruption leaves it behind.  The formatter's deterministic behaviour is part of the configuration (ok / always fails / returns unparsable
-   text with exit status 0).  Executable definitions only. *)
+   inside SourceFile.rewrite removes the temporary file again (except clause); an interruption leaves it behind.  The formatter's deterministic behaviour is part of the configuration (ok / always fails / returns
+   with exit status 0 something that is not the formatted code: unparsable text, nothing, another program).  Since the repair of finding F-55 format_code validates the output of a
+   format-command (valid Python with the statements of its input) and otherwise records a problem and returns its input, like for a failing formatter; a formatter call that
+   misbehaves once is the fault kind Fail at that call.  The constructors RGarbage / Garb are kept: the theorems show that they are unreachable.  Executable definitions only. *)
 From Coq Require Import List Bool Arith.
 Import ListNotations.
 
@@ -73,7 +75,7 @@ Definition format_call (flt : option (nat * fkind)) (m : fmode) (w : world) : re
     if failed then inl (RFailed, add_problem w')
     else match m with
          | FFails => inl (RFailed, add_problem w')
-         | FGarbage => inl (RGarbage, w')
+         | FGarbage => inl (RFailed, add_problem w')   (* since the repair of F-55: the output is validated, the input is returned *)
          | FOk => inl (RFormatted, w')
          end).
 
